@@ -101,7 +101,8 @@ func c07WaitDone(done <-chan struct{}) bool {
 	select {
 	case <-done:
 		return true
-	case <-time.After(c07Patience):
+	case <-time.After(c07Patience()):
+		c07Anomaly()
 		return false
 	}
 }
